@@ -1,5 +1,5 @@
 META = {
- 'manifest': {'text': 'Bounded symbolic model checking of the real bloom_filter (owned memory, 64-bit capacity, 1-2 hash functions) against a bit-vector model with the hash function as an arbitrary function: after up to 2+2 symbolic updates and one of union / intersect / invert, the bit array equals the bitwise model, the set-bit count is exact, no inserted item is reported absent by the filter, a copy or the serialized-and-restored filter, query equals the model, query_and_update returns prior presence, also on a filter whose bit count is still pending (update() then query_and_update(): bit array, emptiness, no false negative, exact count). Unit level: the bit_array_ops kernels (get / set / clear / assign / get_and_set at a symbolic bit index; union_with / intersect / invert / count_num_bits_set) on 2- and 3-word arrays (thorough: 5) with every byte symbolic equal the word-level model, touch exactly the addressed bit and return the exact population count.',
+ 'manifest': {'text': 'Bounded symbolic model checking of the real bloom_filter (owned memory, 64-bit capacity, 1-2 hash functions) against a bit-vector model with the hash function as an arbitrary function: after up to 2+2 symbolic updates and one of union / intersect / invert, the bit array equals the bitwise model, the set-bit count is exact, no inserted item is reported absent by the filter, a copy or the serialized-and-restored filter, query equals the model, query_and_update returns prior presence, also on a filter whose bit count is still pending (update() then query_and_update(): bit array, emptiness, no false negative, exact count). Every mutating operation through a read-only wrap of the serialized image is refused and the image is unchanged. Unit level: the bit_array_ops kernels (get / set / clear / assign / get_and_set at a symbolic bit index; union_with / intersect / invert / count_num_bits_set) on 2- and 3-word arrays (thorough: 5) with every byte symbolic equal the word-level model, touch exactly the addressed bit and return the exact population count.',
               'note': 'XXHash64 replaced by a functionally consistent nondeterministic model; capacity 64 bits only; wrap / writable_wrap of caller memory, string items and the false-positive rate outside the quick claim'},
  'functions_encoded': ['bloom_filter_alloc::update/query/query_and_update/union_with/intersect/invert/get_bits_used/is_empty/serialize/deserialize/copy ctor', 'bit_array_ops::get_bit/set_bit/get_and_set_bit/count_num_bits_set/union_with/intersect/invert', 'bloom_filter_builder::create_by_size', 'bit_array_ops kernels alone on multi-word arrays'],
  'bounds': 'capacity 64 bits, num_hashes 1..2, <= 2 symbolic items per filter, one set operation',
@@ -19,6 +19,8 @@ def queries(tier):
     for nau in ((1,) if tier == 'quick' else (1, 2)):   # (a2: ~190 s, thorough only) update() then query_and_update() with the count still pending (defect fixed in /repo, see known_findings.txt)
         qs.append(Q(f'bf_qau_dirty_nh1_a{nau}', 'bloom', 'c15_bloom.c', defs={'NH': 1, 'NAU': nau, 'NBU': 0, 'OP': 0, 'GETBITS': 0, 'HM_MAX': 12, 'QAU_DIRTY': None}, tu_defs={'VERIF_STUB_HASH': None},
                     unwind=12, unwindset={'^(harness|popc|verif_hash128|hm_key_u64|verif_mem.*|verif_new.*)$': 70}, timeout=(300 if tier == 'quick' else 1500), native_vectors=200, c_defs={'VERIF_NEW_CAPN': 64}, mem_gb=(10 if tier == 'quick' else 28)))
+    qs.append(Q('bf_readonly_refuse_nh1_a1', 'bloom', 'c15_bloom.c', defs={'NH': 1, 'NAU': 1, 'NBU': 0, 'OP': 0, 'GETBITS': 0, 'HM_MAX': 12, 'WITH_WRAP': 3}, tu_defs={'VERIF_STUB_HASH': None},
+                unwind=12, unwindset={'^(harness|popc|verif_hash128|hm_key_u64|verif_mem.*|verif_new.*|w_bf_serialize)$': 70}, timeout=(400 if tier == 'quick' else 1500), native_vectors=200, c_defs={'VERIF_NEW_CAPN': 64}, mem_gb=(10 if tier == 'quick' else 28)))
     # unit level: bit_array_ops kernels on multi-word arrays (every byte symbolic; symbolic bit index) -- the filter-level queries above use one 64-bit word only
     for nw in ((2, 3) if tier == 'quick' else (2, 3, 5)):
         for op in (0, 1, 2, 3):
